@@ -639,9 +639,22 @@ def check_validator(ctx):
         tt = ex.expand(node.ast.test, node.id)
         guards.append((node, tt, raises))
 
+    def norm(tt):
+        """negations stripped and `in` turned into `not in`; returns the
+        term and whether the outcome is thereby inverted"""
+        flipped = False
+        while tt[0] == 'unop' and tt[1] == 'Not':
+            tt, flipped = tt[2], not flipped
+        if tt[0] == 'cmp' and tt[1] == ('In',):
+            tt, flipped = ('cmp', ('NotIn',), tt[2], tt[3]), not flipped
+        return tt, flipped
+
     def has_guard(pred):
         for (node, tt, raises) in guards:
-            edge = pred(tt)
+            core, flipped = norm(tt)
+            edge = pred(core)
+            if edge and flipped:
+                edge = 'false' if edge == 'true' else 'true'
             if edge and raises.get(edge):
                 return node
         return None
